@@ -106,6 +106,9 @@ def deductive(prop, tier, seed, findings):
         ctx.undecided.append(('build', '%s: %s' % (type(e).__name__, e)))
     except (KeyError, AttributeError, IndexError, TypeError, ValueError) as e:
         ctx.undecided.append(('build', 'contract no longer matches the code (%s: %s)' % (type(e).__name__, str(e)[:160])))
+    # frame contracts of the property's public functions (modifies nothing / top(self)); contracts with their own frame section have no entry
+    from pyvc import own_public
+    ctx.guarded('frame.public', lambda: own_public.section(ctx, prop))
     info['gen_s'] = time.time() - t0
     # known-finding carve-outs: expected to stay sat while the finding is listed; otherwise ordinary obligations
     expected = []
